@@ -79,6 +79,7 @@ type pending struct {
 	ml0, ml1         int
 	charged, done    bool
 	ro               bool
+	pg               uint64 // gas when the previous step of the frame ended
 	err              error
 	stack            [][]int
 	memPre           []byte
@@ -210,7 +211,7 @@ func (r *Recorder) StepFetched(s *vm.VerifStep) {
 	r.Steps++
 	fr.steps++
 	r.OpCount[int(s.Op)]++
-	p := &pending{pc: int(s.Pc), op: int(s.Op), g0: s.Gas, sl0: len(s.Stack), ml0: len(s.Mem), ro: s.ReadOnly}
+	p := &pending{pc: int(s.Pc), op: int(s.Op), g0: s.Gas, sl0: len(s.Stack), ml0: len(s.Mem), ro: s.ReadOnly, pg: fr.lastGas}
 	if r.Opt.Values {
 		p.memPre = append([]byte(nil), s.Mem...)
 		p.rdPre = append([]byte(nil), s.ReturnData...)
@@ -271,6 +272,22 @@ func (r *Recorder) StepDone(s *vm.VerifStep, res []byte, err error) {
 func (r *Recorder) flush(fr *frame, npc int, exitErr error, ret []byte, gasNow uint64) {
 	p := fr.p
 	fr.p = nil
+	if p.done {
+		fr.lastGas = p.g2
+	} else {
+		fr.lastGas = gasNow
+	}
+	if p.done && p.err == nil {
+		// completed steps that will not be logged: decide before building the event
+		if r.Opt.MaxSteps > 0 && r.Logged >= r.Opt.MaxSteps {
+			r.Truncated = true
+			return
+		}
+		if r.Opt.StepFilter != nil && !r.Opt.StepFilter(fr.depth, byte(p.op)) {
+			return
+		}
+	}
+	prevGas := p.pg
 	ev := map[string]interface{}{"run": r.Run, "depth": fr.depth, "pc": p.pc, "op": p.op, "npc": npc,
 		"sl0": p.sl0, "ml0": p.ml0, "ro": p.ro}
 	completed := p.done && p.err == nil
@@ -314,7 +331,7 @@ func (r *Recorder) flush(fr *frame, npc int, exitErr error, ret []byte, gasNow u
 		r.FaultCount[c]++
 	}
 	if r.Opt.Gas {
-		ev["pg"] = GasDigits(fr.lastGas)
+		ev["pg"] = GasDigits(prevGas)
 		ev["g0"] = GasDigits(p.g0)
 		if p.charged {
 			ev["cost"], ev["g1"] = GasDigits(p.cost), GasDigits(p.g1)
@@ -327,11 +344,6 @@ func (r *Recorder) flush(fr *frame, npc int, exitErr error, ret []byte, gasNow u
 			ev["g2"] = GasDigits(gasNow)
 		}
 		ev["charged"] = p.charged
-	}
-	if p.done {
-		fr.lastGas = p.g2
-	} else {
-		fr.lastGas = gasNow
 	}
 	if r.Opt.Values {
 		if completed {
